@@ -217,9 +217,16 @@ def run_post_case(impl, case, out):
             up = peer.ws_upgrade(w, sid)
             w.ws_send(up, '2probe')
             w.run()
+        pre = []
+        if case.get('prelude'):
+            # an earlier, ordinary body of the same session: what it carried is acted on once, not again with the next body
+            peer.post(w, sid, '4pre-a\x1e4pre-b')
+            pre = ['pre-a', 'pre-b']
         w.run_until(T_BODY)
         body = '\x1e'.join(pkts)
         ref = ref_dispatch(pkts, 'polling')
+        if pre:
+            ref = dict(ref, events=pre + list(ref['events']))
         r = peer.post(w, sid, body)
         w.run_until(T_BODY)           # same instant, to quiescence
         msgs = [e[2] for e in w.events if e[0] == 'message']
@@ -233,7 +240,7 @@ def run_post_case(impl, case, out):
             V(out, impl, 'exception_escaped', tr, 'POST raised %s at %s' % (r.exc['type'], r.exc['site']), case)
             return
         if ref['undecodable']:
-            if msgs:
+            if msgs != pre:
                 V(out, impl, 'event_from_refused_body', 'undecodable', 'message events %r from an undecodable / over-limit body' % (msgs,), case)
             return
         if ref['lenient']:
@@ -419,6 +426,7 @@ def run(ctx):
                 for poll in ((True,) if ctx.quick else (True, False)):
                     jobs.append(('post', impl, {'pkts': b, 'async_handlers': mode, 'poll': poll}))
                 if len(b) <= 2:
+                    jobs.append(('post', impl, {'pkts': b, 'async_handlers': mode, 'poll': True, 'prelude': True}))
                     jobs.append(('post', impl, {'pkts': b, 'async_handlers': mode, 'poll': True, 'session': 'mid_upgrade'}))
                     for how in ('post_close', 'api_disconnect'):
                         jobs.append(('post', impl, {'pkts': b, 'async_handlers': mode, 'poll': True, 'session': 'closing', 'how': how}))
